@@ -243,6 +243,11 @@ class BaseTheory:
             return FuncV(recv.name + "." + attr)
         if isinstance(recv, ObjV) and recv.role in ("self", "super") and self.program is not None:
             dcls, node = self.program.find_method(recv.cls, attr, recv.info.get("after"))
+            if isinstance(node, ast.Constant):
+                key = f"{recv.info.get('oid', recv.role)}.{attr}"
+                if key in getattr(ex.st, "th", {}):
+                    return ex.st.th[key]         # shadowed by an instance attribute stored on this path
+                return Conc(node.value)          # a class-level constant read through the instance
             if node is not None:
                 return BoundM(recv, attr)
             return self.field(ex, recv, attr)
